@@ -28,6 +28,11 @@ from . import lib, runner, callsym, seqsem
 AGENTS = ["o1", "o2", "o3"]
 
 
+def _budget():
+    from symx.core import task_budget
+    return task_budget()
+
+
 def joint_line(slots):
     return "[" + ",".join("(nop )" if s is None else "(" + " ".join([s[0]] + list(s[1])) + ")" for s in slots) + "]"
 
@@ -178,7 +183,7 @@ def run_joint(task):
                 _cex(ctx, res, task, comp, sym_atoms, fl_all, "joint result differs from the sequential result: " + "; ".join(bad[:3]),
                      z3.Not(post))
 
-        explore(fn, on_path, stats=stats, max_paths=task.get("max_paths", 3000), timeout_ms=task.get("timeout_ms", 5000))
+        explore(fn, on_path, stats=stats, max_paths=task.get("max_paths", 3000), timeout_ms=task.get("timeout_ms", 5000), time_budget_s=_budget())
         if res["reached"] == 0 and res["outcome"] == "held":
             res["outcome"] = "vacuous"
     except Inconclusive as e:
@@ -338,7 +343,7 @@ def run_export(task):
                 a_, f_ = seqsem.model_state(m, comp, atoms, fluents)
                 res["cex"] = {"what": "trajectory state differs: " + "; ".join(bad[:3]), "atoms": a_, "fluents": f_}
 
-        explore(fn, on_path, stats=stats, max_paths=task.get("max_paths", 3000), timeout_ms=5000)
+        explore(fn, on_path, stats=stats, max_paths=task.get("max_paths", 3000), timeout_ms=5000, time_budget_s=_budget())
         if res["reached"] == 0 and res["outcome"] == "held":
             res["outcome"] = "vacuous"
     except Inconclusive as e:
